@@ -250,11 +250,11 @@ def _class_source(k, c, pc, base_names, ns, rec, name=None):
         else:
             rhs = None
         if ann is not None and rhs is not None:
-            body.append(f"    {i['name']}: {ann} = {rhs}")
+            body.append(f"    {i.get('srcName', i['name'])}: {ann} = {rhs}")
         elif ann is not None:
-            body.append(f"    {i['name']}: {ann}")
+            body.append(f"    {i.get('srcName', i['name'])}: {ann}")
         else:
-            body.append(f"    {i['name']} = {rhs}")
+            body.append(f"    {i.get('srcName', i['name'])} = {rhs}")
     if not body:
         body.append("    pass")
     bases = ", ".join(base_names)
